@@ -26,7 +26,7 @@ ASSUMPTIONS = [
     "in ~Curves no '..' precedes the description (conformance clause)",
     "through-file comparison maps values by lasio's documented conversions: numeric literals compared numerically, v1.2 ~Well value/description layout",
 ]
-REQUIRED = ["contract_evaluations_direct", "contract_evaluations_through_file", "form_std", "form_ptime", "form_pdescr_colon",
+REQUIRED = ["contract_evaluations_direct", "form_std", "form_ptime", "form_pdescr_colon",
             "form_noperiod", "form_numunit", "form_lastcolon", "file_items_compared", "hours_seen_24"]
 SOFT_DEADLINE = {"quick": 90, "thorough": 1200}
 LEVEL_TEXT = ("Exploration: each rendered line's parse is checked against the tuple it was rendered from by a post-condition on "
